@@ -414,8 +414,11 @@ class Spectrum(object):
             assert sides != ['onesided'], "complex data cannot be onesided (%s provided)" % sides
 
         # If sides is indeed different, update the psd
-        if self.__psd is not None and self.modified is True:
-            # the stored PSD is obsolete: recompute it before converting
+        if (self.__psd is None and sides != self._default_sides() and callable(self)) or \
+                (self.__psd is not None and self.modified is True):
+            # no up-to-date PSD is stored: compute it, so that the requested
+            # sides applies to the estimate instead of being dropped by the
+            # next computation
             _ = self.psd
         if self.__psd is not None:
             newpsd = self.get_converted_psd(sides)
